@@ -304,6 +304,11 @@ def write_evidence(pid, ev):
     os.makedirs(EVID_DIR, exist_ok=True)
     with open(os.path.join(EVID_DIR, f"{pid}.json"), "w") as f:
         json.dump(ev, f, indent=1, default=str)
+    if ev.get("tier") == "thorough":
+        # keep the last thorough-tier evidence beside the per-run file (which the next quick run overwrites)
+        os.makedirs(os.path.join(EVID_DIR, "thorough"), exist_ok=True)
+        with open(os.path.join(EVID_DIR, "thorough", f"{pid}.json"), "w") as f:
+            json.dump(ev, f, indent=1, default=str)
 
 
 def check(pid, tier, seed):
